@@ -12,6 +12,7 @@ Definition tvis (l : tlabel) : option tvlab :=
   | TStreamIn c => Some (TVStreamIn c)
   | TStreamAdded _ _ => None
   | THandle c => Some (TVHandle c)
+  | TStreamClosed _ => None
   | TListed c b => Some (TVListed c b)
   end.
 Definition tpush (l : tlabel) (o : list tvlab) : list tvlab :=
@@ -45,12 +46,14 @@ Lemma tstep_tx cap ts x ts' : tstep cap ts (TX x) = Some ts' ->
 Proof.
   intros H. cbn [tstep] in H.
   assert (G : lift_sw ts (sstep cap (sw ts) x) = Some ts').
-  { destruct x as [l|e]; [exact H|]. destruct e; try exact H. destruct (t_refs ts); [exact H|discriminate]. }
+  { destruct x as [l|e]; [exact H|]. destruct e; try exact H.
+    - destruct (get 0 c (t_open ts)); [exact H|discriminate].
+    - destruct (t_refs ts); [exact H|discriminate]. }
   apply lift_sw_inv in G. exact G.
 Qed.
 Lemma tstep_other_sw cap ts l ts' : tstep cap ts l = Some ts' -> (forall x, l <> TX x) -> sw ts' = sw ts.
 Proof.
-  intros H Hn. destruct l; [exfalso; eapply Hn; reflexivity| | | |]; cbn [tstep] in H;
+  intros H Hn. destruct l; [exfalso; eapply Hn; reflexivity| | | | |]; cbn [tstep] in H;
     repeat match type of H with
            | context [match ?x with _ => _ end] => destruct x eqn:?; try discriminate H
            end; injection H as <-; reflexivity.
@@ -60,14 +63,15 @@ Lemma tproj_push_tx x o : tproj (tpush (TX x) o) = vpush x (tproj o).
 Proof. unfold tpush, vpush. cbn [tvis]. destruct (svis x); reflexivity. Qed.
 Lemma tproj_push_other l o : (forall x, l <> TX x) -> tproj (tpush l o) = tproj o.
 Proof.
-  intros Hn. destruct l; [exfalso; eapply Hn; reflexivity| | | |]; unfold tpush; cbn [tvis tproj]; reflexivity.
+  intros Hn. destruct l; [exfalso; eapply Hn; reflexivity| | | | |]; unfold tpush; cbn [tvis tproj]; reflexivity.
 Qed.
 
 Lemma texec_sexec cap o ts : texec cap o ts -> exists bo, sexec cap (tproj o) bo (sw ts).
 Proof.
   induction 1 as [|o ts l ts' He [bo IH] Hs]; [exists []; constructor|].
-  destruct l as [x| | | |].
+  destruct l as [x| | | | |].
   - apply tstep_tx in Hs as (Hs & _). exists (bpush x bo). rewrite tproj_push_tx. eapply sexec_step; eauto.
+  - rewrite (tstep_other_sw _ _ _ _ Hs), tproj_push_other by (intros; congruence). eauto.
   - rewrite (tstep_other_sw _ _ _ _ Hs), tproj_push_other by (intros; congruence). eauto.
   - rewrite (tstep_other_sw _ _ _ _ Hs), tproj_push_other by (intros; congruence). eauto.
   - rewrite (tstep_other_sw _ _ _ _ Hs), tproj_push_other by (intros; congruence). eauto.
@@ -79,8 +83,9 @@ Lemma trun_srun_gen cap ls : forall t0 t, trun cap t0 ls = Some t -> srun cap (s
 Proof.
   induction ls as [|l ls IH]; intros t0 t Hr; cbn [trun tsched] in *.
   - injection Hr as <-. reflexivity.
-  - destruct (tstep cap t0 l) as [t1|] eqn:Es; [|discriminate]. destruct l as [x| | | |].
+  - destruct (tstep cap t0 l) as [t1|] eqn:Es; [|discriminate]. destruct l as [x| | | | |].
     + apply tstep_tx in Es as (Es & _). cbn [srun]. rewrite Es. apply IH. exact Hr.
+    + rewrite <- (tstep_other_sw _ _ _ _ Es) by (intros; congruence). apply IH. exact Hr.
     + rewrite <- (tstep_other_sw _ _ _ _ Es) by (intros; congruence). apply IH. exact Hr.
     + rewrite <- (tstep_other_sw _ _ _ _ Es) by (intros; congruence). apply IH. exact Hr.
     + rewrite <- (tstep_other_sw _ _ _ _ Es) by (intros; congruence). apply IH. exact Hr.
@@ -92,8 +97,8 @@ Proof. apply trun_srun_gen. Qed.
 Lemma tproj_tobs_gen ls : forall o, tproj (tobs_of ls o) = vobs_of (tsched ls) (tproj o).
 Proof.
   induction ls as [|l ls IH]; intros o; cbn [tobs_of tsched vobs_of]; [reflexivity|].
-  rewrite IH. destruct l as [x| | | |]; cbn [vobs_of];
-    [rewrite tproj_push_tx; reflexivity| | | |]; rewrite tproj_push_other by (intros; congruence); reflexivity.
+  rewrite IH. destruct l as [x| | | | |]; cbn [vobs_of];
+    [rewrite tproj_push_tx; reflexivity| | | | |]; rewrite tproj_push_other by (intros; congruence); reflexivity.
 Qed.
 Lemma tproj_tobs ls : tproj (tobs ls) = vobs (tsched ls).
 Proof. apply tproj_tobs_gen. Qed.
@@ -101,7 +106,7 @@ Proof. apply tproj_tobs_gen. Qed.
 (* ---- streams: a conn with a stream in flight had its Connected return ----------------------- *)
 Lemma tproj_push_incl l o v : In v (tproj o) -> In v (tproj (tpush l o)).
 Proof.
-  intros H. destruct l as [x| | | |]; [rewrite tproj_push_tx; unfold vpush; destruct (svis x); [right|]; exact H| | | |];
+  intros H. destruct l as [x| | | | |]; [rewrite tproj_push_tx; unfold vpush; destruct (svis x); [right|]; exact H| | | | |];
     rewrite tproj_push_other by (intros; congruence); exact H.
 Qed.
 
@@ -113,7 +118,7 @@ Lemma stream_inv cap o ts : texec cap o ts -> forall c,
 Proof.
   induction 1 as [|o ts l ts' He IH Hs]; intros c0 H0.
   - cbn in H0. lia.
-  - destruct l as [x|c|c ok|c|c b].
+  - destruct l as [x|c|c ok|c|c|c b].
     + apply tstep_tx in Hs as (_ & _ & E2 & E3). rewrite E2, E3 in H0. apply tproj_push_incl. auto.
     + apply tproj_push_incl. cbn [tstep] in Hs. destruct (s_pc (sg (sw ts) c)) eqn:Ep; try discriminate Hs.
       injection Hs as <-. cbn [t_add t_hand] in H0.
@@ -130,6 +135,8 @@ Proof.
       assert (Hc : In (VConnE c) (tproj o)) by (apply IH; right; lia).
       injection Hs as <-; cbn [t_add t_hand] in H0.
       destruct (Nat.eq_dec c0 c) as [->|Hne]; [exact Hc|]. rewrite ?get_set_other in H0 by assumption; auto.
+    + apply tproj_push_incl. cbn [tstep] in Hs. destruct (get 0 c (t_open ts)); try discriminate Hs.
+      injection Hs as <-. cbn [t_add t_hand] in H0. auto.
     + apply tproj_push_incl. cbn [tstep] in Hs. destruct (negb _ && _); try discriminate Hs. injection Hs as <-. auto.
 Qed.
 
@@ -146,7 +153,7 @@ Qed.
 Lemma stream_refs_inv cap o ts : texec cap o ts -> xwaited (x_pc (sw ts)) = true -> t_refs ts = 0.
 Proof.
   induction 1 as [|o ts l ts' He IH Hs]; intros Hw; [reflexivity|].
-  destruct l as [x|c|c ok|c|c b].
+  destruct l as [x|c|c ok|c|c|c b].
   - destruct (tstep_tx _ _ _ _ Hs) as (Hx & E1 & _). rewrite E1.
     destruct x as [l|e]; [apply IH; eapply xwaited_pre; eauto; congruence|].
     destruct e; try (apply IH; eapply xwaited_pre; eauto; congruence).
@@ -164,6 +171,8 @@ Proof.
       injection Hs as <-; cbn [t_refs]; rewrite IH; reflexivity.
   - pose proof (tstep_other_sw _ _ _ _ Hs) as E. rewrite E in Hw by (intros; congruence). specialize (IH Hw).
     cbn [tstep] in Hs. destruct (get 0 c (t_hand ts)); try discriminate Hs. injection Hs as <-. exact IH.
+  - pose proof (tstep_other_sw _ _ _ _ Hs) as E. rewrite E in Hw by (intros; congruence). specialize (IH Hw).
+    cbn [tstep] in Hs. destruct (get 0 c (t_open ts)); try discriminate Hs. injection Hs as <-. cbn [t_refs]. rewrite IH. reflexivity.
   - pose proof (tstep_other_sw _ _ _ _ Hs) as E. rewrite E in Hw by (intros; congruence). specialize (IH Hw).
     cbn [tstep] in Hs. destruct (negb _ && _); try discriminate Hs. injection Hs as <-. exact IH.
 Qed.
